@@ -12,9 +12,9 @@ git -C /repo worktree add -q $wt HEAD || exit 2
 demo=$(ls $out/demo.py $out/test_demo.py 2>/dev/null | head -1)
 run_demo() {
   if [[ $demo == *test_demo.py ]]; then
-    (cd $wt && DEMO_SRC=$wt/src SCHEMATHESIS_SRC=$wt/src PYTHONPATH=$wt/src timeout 300 /venv/bin/python -m pytest $demo -q -p no:cacheprovider -x >> $log 2>&1)
+    (cd $wt && env ${pid}_SRC=$wt/src SRC=$wt/src DEMO_SRC=$wt/src SCHEMATHESIS_SRC=$wt/src PYTHONPATH=$wt/src timeout 300 /venv/bin/python -m pytest $demo -q -p no:cacheprovider -x >> $log 2>&1)
   else
-    (cd $wt && DEMO_SRC=$wt/src SCHEMATHESIS_SRC=$wt/src PYTHONPATH=$wt/src timeout 300 /venv/bin/python $demo >> $log 2>&1)
+    (cd $wt && env ${pid}_SRC=$wt/src SRC=$wt/src DEMO_SRC=$wt/src SCHEMATHESIS_SRC=$wt/src PYTHONPATH=$wt/src timeout 300 /venv/bin/python $demo >> $log 2>&1)
   fi
 }
 echo "### demo WITHOUT patch" >> $log; run_demo; r0=$?
